@@ -282,3 +282,101 @@ def rule_list_integrity(ctx, chk, rule='list-integrity'):
             chk.ok(rule, 'list:%s' % name, f.loc, 'on every path to every return: freed nodes are unlinked, linked malloc nodes are terminated',
                    func=name)
     return nf, nfree, nlink
+
+
+class LastHooks(Hooks):
+    """a node established to be the last one (`v->next` tested NULL) that is freed leaves pathTail stale unless pathTail is
+    written before the function returns successfully"""
+
+    def __init__(self, f, prog, success_nonzero):
+        self.f = f
+        self.prog = prog
+        self.success_nonzero = success_nonzero
+        self.bad = []
+        self.sites = set()
+
+    def instr(self, b, idx, i, facts):
+        if i.op == 'call':
+            mc = manager_call(i)
+            if mc and mc[0] == 'free' and len(i.args) > 1:
+                v = _ref(i.args[1])
+                if v is not None and ('last', v) in facts:
+                    self.sites.add(str(i.loc))
+                    if ('tailok', v) not in facts:
+                        facts = facts | {('stale', str(i.loc))}
+                return facts
+            if i.dst is not None and i.dst.k == 'ref':
+                v = i.dst.v
+                return frozenset(x for x in facts if not (len(x) > 1 and x[1] == v and x[0] in ('last', 'notlast', 'cv', 'tailok')))
+            return facts
+        if i.op != 'assign':
+            return facts
+        d = strip_casts(i.dst)
+        if d is None:
+            return facts
+        if d.k == 'ref':
+            v = d.v
+            facts = frozenset(x for x in facts if not (len(x) > 1 and x[1] == v and x[0] in ('last', 'notlast', 'cv', 'tailok')))
+            cv = const_value(i.src, self.prog)
+            if cv is not None and '*' not in (d.ty or ''):
+                facts = facts | {('cv', v, cv)}
+            return facts
+        if d.k == 'member' and d.v == 'pathTail':
+            # the tail is moved away from every node known to be last (unless it is that very node that is stored)
+            sv = _ref(i.src)
+            facts = frozenset(x for x in facts if x[0] != 'stale')
+            return facts | set(('tailok', x[1]) for x in facts if x[0] == 'last' and x[1] != sv)
+        if d.k == 'member' and d.v == 'next':
+            base = _ref(d.c[0])
+            if base is not None:
+                facts = frozenset(x for x in facts if not (x[0] in ('last', 'notlast') and x[1] == base))
+        return facts
+
+    def edge(self, b, cond, truth, facts):
+        from .failclean import zero_test
+        zt = zero_test(cond, self.prog)
+        if zt is not None:
+            var, zero_when_true = zt
+            for x in facts:
+                if x[0] == 'cv' and x[1] == var and ((x[2] == 0) == zero_when_true) != truth:
+                    return None
+        nt = null_test(cond)
+        if nt is not None:
+            e, null_when_true = nt
+            m = re.match(r'^\(?([A-Za-z_][A-Za-z0-9_#]*)->next\)?$', expr_key(e))
+            if m:
+                v = m.group(1)
+                is_null = (null_when_true == truth)
+                if (('last', v) in facts and not is_null) or (('notlast', v) in facts and is_null):
+                    return None
+                facts = facts | {('last', v) if is_null else ('notlast', v)}
+        return facts
+
+    def ret(self, b, term, facts):
+        v = const_value(term[1], self.prog) if term[1] is not None else None
+        if v is not None and ((v != 0) != self.success_nonzero):
+            return
+        for x in facts:
+            if x[0] == 'stale':
+                self.bad.append((term[2], x[1]))
+
+
+def rule_tail_after_removal(ctx, chk, funcs, rule='list-tail'):
+    n = 0
+    for name in sorted(funcs):
+        f = ctx.irp.funcs.get(name)
+        if f is None or not any('PathSegment' in (t or '') for t in f.locals.values()):
+            continue
+        h = LastHooks(f, ctx.prog, success_nonzero=(f.ret_type or '').strip() == 'UriBool')
+        explore(f, h, limit=60000)
+        if not h.sites:
+            continue
+        n += len(h.sites)
+        if h.bad:
+            loc, site = h.bad[0]
+            chk.bad(rule, 'tail-after-removal:%s' % base_name(name), loc, '%s can return successfully after freeing a node it had established '
+                    'to be the last one (free at %s) without writing pathTail: the tail names released memory' % (name, site), func=name)
+        else:
+            chk.ok(rule, 'tail-after-removal:%s' % name, f.loc, '%d frees of a last node, each followed by a store to pathTail on every '
+                   'successful path' % len(h.sites), func=name)
+    return n
